@@ -69,7 +69,8 @@ class ThermochemGroupAdditive(ThermochemBase):
                 i = lib.uq_contents['descriptors'].index(group)
                 xp[i] = count
             self.Xp_invXX_Xp = np.dot(np.dot(np.transpose(xp),
-                                             lib.uq_contents['mat']), xp)
+                                             lib.uq_contents['mat']),
+                                      xp).item()
             self.dof = lib.uq_contents['dof']
         if common_min is not None:
             ThermochemBase.__init__(self, range=(common_min, common_max))
